@@ -584,6 +584,35 @@ impl Pool for PoolImpl {
     }
 }
 
+/// Verification hooks: read-only views of internal state for the conformance harness.
+#[cfg(feature = "verif-hooks")]
+impl PoolImpl {
+    /// First slot whose state has not been pruned (the watermark).
+    pub fn verif_first_unpruned_slot(&self) -> Slot {
+        self.first_unpruned_slot()
+    }
+
+    /// Slots for which per-slot vote/certificate state is retained.
+    pub fn verif_retained_slots(&self) -> Vec<Slot> {
+        self.slot_states.keys().copied().collect()
+    }
+
+    /// Number of blocks waiting for their parent's certificate (safe-to-notar).
+    pub fn verif_waiting_children(&self) -> usize {
+        self.s2n_waiting_parent_cert.len()
+    }
+
+    /// Finalization status of every tracked slot, as `(slot, tag, hash)`.
+    pub fn verif_finality_status(&self) -> Vec<(Slot, &'static str, Option<BlockHash>)> {
+        self.finality_tracker.verif_status()
+    }
+
+    /// Which certificate kinds are held for `slot`, as `(kind, hash)`.
+    pub fn verif_certs(&self, slot: Slot) -> Vec<Cert> {
+        self.get_certs(slot..=slot)
+    }
+}
+
 /// Replays `votes` into a fresh [`SlotState`] for `slot`.
 ///
 /// Lets out-of-crate benches drive the per-slot vote-counting hot path
